@@ -12,6 +12,7 @@ use fastant::Anchor;
 use fastant::Instant;
 use parking_lot::Mutex;
 
+use crate::collector::CollectTokenItem;
 use crate::collector::Config;
 use crate::collector::EventRecord;
 use crate::collector::SpanContext;
@@ -216,6 +217,11 @@ pub(crate) struct GlobalCollector {
     // Commits that were first seen in the second drain pass of a cycle. They are handled at the
     // start of the next cycle, see `handle_commands`.
     deferred_commits: Vec<CommitCollect>,
+    // Other commands that were first seen in the second drain pass and have to wait for the next
+    // cycle, because commands that precede them may still be in the channels.
+    carried_drops: Vec<DropCollect>,
+    carried_submits: Vec<SubmitSpans>,
+    carried_shared: Vec<(Arc<SpanSet>, CollectToken)>,
 }
 
 impl GlobalCollector {
@@ -232,6 +238,9 @@ impl GlobalCollector {
             submit_spans: vec![],
             stale_spans: vec![],
             deferred_commits: vec![],
+            carried_drops: vec![],
+            carried_submits: vec![],
+            carried_shared: vec![],
         };
 
         *GLOBAL_COLLECTOR.lock() = Some(global_collector);
@@ -274,7 +283,11 @@ impl GlobalCollector {
         let mut verif_rx_index = 0usize;
 
         commit_collects.append(&mut self.deferred_commits);
+        drop_collects.append(&mut self.carried_drops);
+        submit_spans.append(&mut self.carried_submits);
 
+        let first_pass_drops;
+        let first_pass_submits;
         {
             let mut rxs = SPSC_RXS.lock();
             rxs.retain_mut(|rx| {
@@ -312,6 +325,8 @@ impl GlobalCollector {
             // by now, so drain all channels once more. Commits that only show up in this second
             // pass wait for the next cycle, because what precedes *them* may not be drained yet.
             let first_pass_commits = commit_collects.len();
+            first_pass_drops = drop_collects.len();
+            first_pass_submits = submit_spans.len();
             #[cfg(fastrace_verif)]
             let mut verif_rx_index = 0usize;
             for rx in rxs.iter_mut() {
@@ -341,6 +356,7 @@ impl GlobalCollector {
             commit_collects.clear();
             submit_spans.clear();
             self.deferred_commits.clear();
+            self.carried_shared.clear();
             return;
         }
 
@@ -349,23 +365,86 @@ impl GlobalCollector {
                 .insert(collect_id, ActiveCollector::default());
         }
 
-        for DropCollect { collect_id } in self.drop_collects.drain(..) {
+        // A command that only shows up in the second drain pass may be younger than commands that
+        // are still in the channels: the start of its own trace, or (without `cancelable`, where a
+        // span is reported in the cycle that sees it) an event or property attached to the span
+        // before it finished. It is handled in this cycle only where a commit of this cycle needs
+        // it; otherwise it waits for the next cycle, when everything older than it is drained.
+        let cancelable = self.config.cancelable;
+        let mut index = first_pass_drops;
+        while index < drop_collects.len() {
+            if self
+                .active_collectors
+                .contains_key(&drop_collects[index].collect_id)
+            {
+                index += 1;
+            } else {
+                self.carried_drops.push(drop_collects.remove(index));
+            }
+        }
+
+        for DropCollect { collect_id } in drop_collects.drain(..) {
             // Without `cancelable`, spans are reported as they arrive and `cancel()` is a no-op.
-            if self.config.cancelable {
+            if cancelable {
                 self.active_collectors.remove(&collect_id);
             }
         }
 
-        for SubmitSpans {
-            spans,
-            collect_token,
-        } in self.submit_spans.drain(..)
+        for (spans, collect_token) in self.carried_shared.drain(..) {
+            for item in &collect_token {
+                if let Some(active_collector) = self.active_collectors.get_mut(&item.collect_id) {
+                    active_collector
+                        .span_collections
+                        .push(SpanCollection::Shared {
+                            spans: spans.clone(),
+                            trace_id: item.trace_id,
+                            parent_id: item.parent_id,
+                        });
+                } else if !cancelable {
+                    stale_spans.push(SpanCollection::Shared {
+                        spans: spans.clone(),
+                        trace_id: item.trace_id,
+                        parent_id: item.parent_id,
+                    });
+                }
+            }
+        }
+
+        for (
+            index,
+            SubmitSpans {
+                spans,
+                collect_token,
+            },
+        ) in submit_spans.drain(..).enumerate()
         {
             debug_assert!(!collect_token.is_empty());
 
+            let second_pass = index >= first_pass_submits;
+            // The record of a thread-safe span: its events and properties arrive in other commands.
+            let waits_for_attachments = second_pass
+                && !cancelable
+                && matches!(&spans, SpanSet::Span(raw) if matches!(raw.raw_kind, RawKind::Span));
+            let carry = |item: &CollectTokenItem, known: bool| {
+                second_pass
+                    && (!known
+                        || (waits_for_attachments
+                            && !commit_collects
+                                .iter()
+                                .any(|commit| commit.collect_id == item.collect_id)))
+            };
+
             if collect_token.len() == 1 {
                 let item = collect_token[0];
-                if let Some(active_collector) = self.active_collectors.get_mut(&item.collect_id) {
+                let known = self.active_collectors.contains_key(&item.collect_id);
+                if carry(&item, known) {
+                    self.carried_submits.push(SubmitSpans {
+                        spans,
+                        collect_token,
+                    });
+                } else if let Some(active_collector) =
+                    self.active_collectors.get_mut(&item.collect_id)
+                {
                     active_collector
                         .span_collections
                         .push(SpanCollection::Owned {
@@ -373,7 +452,7 @@ impl GlobalCollector {
                             trace_id: item.trace_id,
                             parent_id: item.parent_id,
                         });
-                } else if !self.config.cancelable {
+                } else if !cancelable {
                     stale_spans.push(SpanCollection::Owned {
                         spans,
                         trace_id: item.trace_id,
@@ -382,8 +461,13 @@ impl GlobalCollector {
                 }
             } else {
                 let spans = Arc::new(spans);
+                let mut carried = CollectToken::new();
                 for item in &collect_token {
-                    if let Some(active_collector) = self.active_collectors.get_mut(&item.collect_id)
+                    let known = self.active_collectors.contains_key(&item.collect_id);
+                    if carry(item, known) {
+                        carried.push(*item);
+                    } else if let Some(active_collector) =
+                        self.active_collectors.get_mut(&item.collect_id)
                     {
                         active_collector
                             .span_collections
@@ -392,13 +476,16 @@ impl GlobalCollector {
                                 trace_id: item.trace_id,
                                 parent_id: item.parent_id,
                             });
-                    } else if !self.config.cancelable {
+                    } else if !cancelable {
                         stale_spans.push(SpanCollection::Shared {
                             spans: spans.clone(),
                             trace_id: item.trace_id,
                             parent_id: item.parent_id,
                         });
                     }
+                }
+                if !carried.is_empty() {
+                    self.carried_shared.push((spans, carried));
                 }
             }
         }
